@@ -66,7 +66,11 @@ func TestVerifSimOT(t *testing.T) {
 		var aEnc []byte
 		var aObj group.Element
 		if pn := lib.Try("simot.rounds:"+gr.name, cat(m0, m1), func() {
-			A := sender.InitSender(gr.g, lib.Clone(m0), lib.Clone(m1), c.rep)
+			// the two messages are handed over as adjacent views of one buffer
+			// with room behind each (a sender cutting them out of a record)
+			frame := append(append(append(append(make([]byte, 0, 2*len(m0)+96), m0...), make([]byte, 0)...), m1...), make([]byte, 64)...)
+			a0, a1 := frame[:len(m0):len(frame)], frame[len(m0):len(m0)+len(m1):len(frame)]
+			A := sender.InitSender(gr.g, a0, a1, c.rep)
 			aEnc, _ = A.MarshalBinary()
 			aObj = A
 			B := receiver.Round1Receiver(gr.g, c.choice, c.rep, A)
